@@ -114,6 +114,9 @@ func (x *c03Interp) assign(fr *c03Frame, st *c03State, e ast.Expr, v *c03V) {
 	case *ast.StarExpr:
 		for _, ev := range x.eval(fr, st, l.X) {
 			switch ev.v.K {
+			case c03KRef:
+				x.refStore(st, ev.v, nil, v, e, fr)
+				continue
 			case c03KAddr:
 				st.vars[ev.v.Var] = v
 			case c03KPtr:
@@ -167,6 +170,14 @@ func (x *c03Interp) commaOk(fr *c03Frame, st *c03State, rhs ast.Expr) ([]c03ELV,
 		}
 		var out []c03ELV
 		for _, o := range x.evalList(fr, st, []ast.Expr{r.X, r.Index}) {
+			if hit, known := c03MapLookup(o.vs[0], o.vs[1]); known {
+				okV := &c03V{K: c03KBool, Bool: hit != nil, T: types.Typ[types.Bool]}
+				if hit == nil {
+					hit = c03ZeroValue(info.TypeOf(r))
+				}
+				out = append(out, c03ELV{o.st, []*c03V{hit, okV}})
+				continue
+			}
 			v := &c03V{K: c03KUnk, T: info.TypeOf(r), Key: x.fresh("m"), From: o.vs, Z: triU}
 			out = append(out, c03ELV{o.st, []*c03V{v, x.unk(types.Typ[types.Bool])}})
 		}
@@ -289,8 +300,20 @@ func (x *c03Interp) execStmt(fr *c03Frame, st *c03State, s ast.Stmt, label strin
 		}
 		return x.execAssign(fr, st, s.Lhs, s.Rhs, s)
 	case *ast.IncDecStmt:
-		x.assign(fr, st, s.X, x.unk(info.TypeOf(s.X)))
-		return []c03Out{{st: st}}
+		var outs []c03Out
+		for _, ev := range x.eval(fr, st, s.X) {
+			nv := x.unk(info.TypeOf(s.X))
+			if ev.v.K == c03KInt {
+				d := int64(1)
+				if s.Tok == token.DEC {
+					d = -1
+				}
+				nv = &c03V{K: c03KInt, Int: ev.v.Int + d, T: ev.v.T}
+			}
+			x.assign(fr, ev.st, s.X, nv)
+			outs = append(outs, c03Out{st: ev.st})
+		}
+		return outs
 	case *ast.ReturnStmt:
 		var outs []c03Out
 		for _, o := range x.evalList(fr, st, s.Results) {
@@ -341,53 +364,11 @@ func (x *c03Interp) execStmt(fr *c03Frame, st *c03State, s ast.Stmt, label strin
 	case *ast.TypeSwitchStmt:
 		return x.execTypeSwitch(fr, st, s, label)
 	case *ast.ForStmt:
-		outs := []c03Out{{st: st}}
-		if s.Init != nil {
-			outs = x.execStmt(fr, st, s.Init, "")
-		}
-		var res []c03Out
-		for _, o := range outs {
-			if o.ctl != c03Next {
-				res = append(res, o)
-				continue
-			}
-			conds := []c03CV{{o.st, true}}
-			if s.Cond != nil {
-				conds = x.evalCond(fr, o.st, s.Cond)
-			}
-			for _, cv := range conds {
-				if !cv.b {
-					res = append(res, c03Out{st: cv.st})
-					continue
-				}
-				for _, bo := range x.execBlock(fr, cv.st, s.Body.List) {
-					done, leaves := c03LoopDone(bo, label)
-					switch {
-					case leaves:
-						res = append(res, c03Out{st: bo.st})
-					case done && s.Cond == nil:
-						bo.st.event(c03Event{Kind: "again", Node: s, Frame: fr})
-						res = append(res, c03Out{st: bo.st, ctl: c03Again, loop: s, pos: s.Pos()})
-					case done:
-						bo.st.event(c03Event{Kind: "again", Node: s, Frame: fr})
-						// one iteration explored; leave the loop as if the condition failed next
-						if s.Post != nil {
-							res = append(res, x.execStmt(fr, bo.st, s.Post, "")...)
-						} else {
-							res = append(res, c03Out{st: bo.st})
-						}
-					default:
-						res = append(res, bo)
-					}
-				}
-			}
-		}
-		return res
+		return x.execFor(fr, st, s, label)
 	case *ast.RangeStmt:
 		return x.execRange(fr, st, s, label)
 	case *ast.DeferStmt:
-		st.event(c03Event{Kind: "unsupported", Node: s, Frame: fr, Call: s.Call, Why: "defer statement (its call would run at an unmodelled point)"})
-		return []c03Out{{st: st}}
+		return x.deferCall(fr, st, s)
 	case *ast.GoStmt:
 		st.event(c03Event{Kind: "unsupported", Node: s, Frame: fr, Call: s.Call, Why: "go statement"})
 		return []c03Out{{st: st}}
@@ -630,7 +611,7 @@ func (x *c03Interp) execRange(fr *c03Frame, st *c03State, s *ast.RangeStmt, labe
 		}
 		x.assign(fr, st, e, v)
 	}
-	iter := func(st *c03State, ranged, elem *c03V) {
+	iter := func(st *c03State, ranged, elem *c03V, idx int) {
 		var kt, vt types.Type
 		if s.Key != nil {
 			kt = info.TypeOf(s.Key)
@@ -638,7 +619,13 @@ func (x *c03Interp) execRange(fr *c03Frame, st *c03State, s *ast.RangeStmt, labe
 		if s.Value != nil {
 			vt = info.TypeOf(s.Value)
 		}
-		if s.Key != nil {
+		switch {
+		case s.Key == nil:
+		case idx >= 0 && idx < len(ranged.Keys):
+			bind(st, s.Key, ranged.Keys[idx]) // a map built from a literal: its own key
+		case idx >= 0 && len(ranged.Keys) == 0:
+			bind(st, s.Key, &c03V{K: c03KInt, Int: int64(idx), T: kt})
+		default:
 			bind(st, s.Key, x.initVal(&c03Root{Kind: "key", Node: s, Of: ranged, T: kt}, nil, kt, "key("+ranged.Key+")"))
 		}
 		if elem == nil {
@@ -669,11 +656,11 @@ func (x *c03Interp) execRange(fr *c03Frame, st *c03State, s *ast.RangeStmt, labe
 		case v.K == c03KList && v.Base == nil && len(v.Elems) <= 24 && !c03HasSpread(v):
 			// a list whose elements are all known: the loop is unrolled (a symbolic element stands for itself once)
 			cur := []*c03State{ev.st}
-			for _, e := range v.Elems {
+			for ei, e := range v.Elems {
 				var next []*c03State
 				for _, cs := range cur {
 					n0 := len(res)
-					iter(cs, v, e)
+					iter(cs, v, e, ei)
 					// outcomes iter appended: those that continue the loop feed the next element
 					var keep []c03Out
 					for _, o := range res[n0:] {
@@ -714,20 +701,20 @@ func (x *c03Interp) execRange(fr *c03Frame, st *c03State, s *ast.RangeStmt, labe
 					break
 				}
 				if e == nil {
-					iter(ev.st.clone(), v.Elems[i].From[0], nil)
+					iter(ev.st.clone(), v.Elems[i].From[0], nil, -1)
 				} else {
-					iter(ev.st.clone(), v, e)
+					iter(ev.st.clone(), v, e, i)
 				}
 			}
 			if hasBase {
-				iter(ev.st.clone(), v.Base, nil)
+				iter(ev.st.clone(), v.Base, nil, -1)
 			}
 		default:
 			switch ev.st.Zero(v) {
 			case triT:
 				res = append(res, c03Out{st: ev.st})
 			case triF:
-				iter(ev.st, v, nil)
+				iter(ev.st, v, nil, -1)
 			default:
 				if !x.spend() {
 					continue
@@ -738,7 +725,7 @@ func (x *c03Interp) execRange(fr *c03Frame, st *c03State, s *ast.RangeStmt, labe
 					ev.st.known[k] = triF
 				}
 				res = append(res, c03Out{st: skip})
-				iter(ev.st, v, nil)
+				iter(ev.st, v, nil, -1)
 			}
 		}
 	}
